@@ -9,13 +9,18 @@ Oracle ops for the `dec` family (C05): the resumable scanners and the refill loo
   dec chunkN <hex chunk>+                                     → "<n> <err>"           (consumeNumber over the chunk list)
   dec chunkL <lithex> <hex chunk>+                            → "<n> <err>"
   dec chunkW <hex chunk>+                                     → "<n> <err>"
+  dec stream <opts: bit0 allowDup, bit1 allowInvalidUTF8> <n> <event>*                → the results of n ReadToken calls of the
+        streaming decoder model (Model/Stream.lean); event = hex chunk | `-` empty chunk | `F` fault | `E` eof;
+        results joined by `;`: `T<kind>:<start>:<stop>` | `X<class>:<offset>` | `F`
+  dec whole <opts> <n> <hex>                                   → the same calls on the whole-buffer model (TokenLoop)
 err ∈ ok | eof | char | esc | utf8
 -/
 import JsonV.Oracle.Util
 import JsonV.Model.Resume
+import JsonV.Model.Stream
 
 namespace JsonV.Oracle.Dec
-open JsonV JsonV.Oracle JsonV.Model.Resume
+open JsonV JsonV.Oracle JsonV.Model JsonV.Model.Resume
 
 def errStr : Err → String
   | .ok => "ok"
@@ -23,6 +28,24 @@ def errStr : Err → String
   | .invalidChar => "char"
   | .invalidEscape => "esc"
   | .invalidUTF8 => "utf8"
+
+def wireErrStr : Wire.Err → String
+  | .ok => "ok" | .eof => "eof" | .invalidChar => "char" | .invalidEscape => "esc" | .invalidUTF8 => "utf8"
+  | .dupName => "dup" | .maxDepth => "maxdepth" | .mismatchDelim => "char" | .ioEOF => "ioeof" | .fuel => "fuel" | .bug => "bug"
+  | .nonStringName => "nonstring" | .missingValue => "missingvalue" | .invalidNamespace => "invalidns"
+
+def outStr : Stream.Out → String
+  | .fault => "F"
+  | .err off e => s!"X{wireErrStr e}:{off}"
+  | .tok k a b => s!"T{k.toNat}:{a}:{b}"
+
+def parseEvents (args : List String) : Option (List Stream.Event) :=
+  args.mapM fun a =>
+    if a == "F" then some Stream.Event.fault
+    else if a == "E" then some Stream.Event.eof
+    else (bytesOfHex a).map Stream.Event.chunk
+
+def vopts (n : Nat) : Validate.VOpts := { allowDup := n % 2 == 1, allowInvalidUTF8 := (n / 2) % 2 == 1 }
 
 def allBytes (args : List String) : Option (List Bytes) := args.mapM bytesOfHex
 
@@ -64,6 +87,14 @@ def handle (op : String) (args : List String) : String :=
     match allBytes hs with
     | some (c :: cs) => let r := consumeWhitespaceChunks c 0 cs; s!"{r.1} {errStr r.2}"
     | _ => badArgs
+  | "stream", o :: n :: evs =>
+    match o.toNat?, n.toNat?, parseEvents evs with
+    | some o, some n, some es => ";".intercalate ((Stream.run (vopts o) n (Stream.init es)).map outStr)
+    | _, _, _ => badArgs
+  | "whole", [o, n, h] =>
+    match o.toNat?, n.toNat?, bytesOfHex h with
+    | some o, some n, some b => ";".intercalate ((Stream.wholeRun (vopts o) n { r := b }).map outStr)
+    | _, _, _ => badArgs
   | _, _ => "ERR unimplemented"
 
 end JsonV.Oracle.Dec
